@@ -51,3 +51,7 @@ Definition hamming (v u : list Q) : Q :=
 Definition r2 (v u : list Q) : Q :=
   let mv := mean v in
   1 - qsum (map2 (fun x y => (x - y) * (x - y)) v u) / qsum (map (fun x => (x - mv) * (x - mv)) v).
+
+(* a comparator table: one row and one column per ranking, cell = the measure of the two rankings *)
+Definition cmp_table {A} (f : list Q -> list Q -> A) (cs : list (list Q)) : list (list A) :=
+  map (fun v => map (fun u => f v u) cs) cs.
